@@ -227,6 +227,25 @@ PROPS = {
                       "strategies and NAS operations are not modelled; updates (oldInst) are C15",
         "assumptions": ["Go's regexp `$` matches only at the end of the text (checked by the name stream)"],
     },
+    "C18": {
+        "prop_files": ["Katib/Props/C18.lean"],
+        "n": {"quick": 1500, "thorough": 60000},
+        "rule": "search spaces the service's ValidateAlgorithmSettings accepts (1-4 parameters: int with no / dividing / arbitrary step and negative bounds, double with fractional and negative "
+                "bounds and no / dividing / non-dividing step, categorical incl. spaces/commas/non-ASCII, discrete) x random|tpe|cmaes|sobol with settings (random_state, n_startup_trials 1-3, "
+                "n_ei_candidates, sigma, restart_strategy) x 2-6 rounds (thorough: up to 11) of the real SuggestionService.GetSuggestions: Katib creates trials from any subset of the unclaimed "
+                "assignments in any order under random names, states move created->running->{succeeded with finite values incl. 1e300/-0, failed, killed, early-stopped, metrics-unavailable, "
+                "unknown} and sometimes arbitrarily, each request carries all (sometimes a subset) of the trials shuffled and asks for 0-3 assignments; a case = one service lifetime",
+        "trusted": ["goptuna samplers (third party, floating point, random): their output is an input of the model and is judged by the feasibility oracle",
+                    "strconv round trip of the returned values (assumed by comparing canonical strings; exercised on every re-identified trial)"],
+        "modelled": ["SuggestionService.GetSuggestions bookkeeping: toGoptunaState, syncTrials, findGoptunaTrialIDByParam, sampleNextParam's trial creation, trialMapping, as Katib.Gop.request; "
+                     "ToExternalRepr of stepped distributions in exact arithmetic as Katib.Gop.snap"],
+        "level_text": "partial: Lean theorems C18_survives_history (every history of own suggestions, any states / order / subset, unboundedly many rounds: syncTrials and re-identification never "
+                      "fail; invariant with a ghost origin map), C18_count, C18_snap_feasible (dividing step: in range and on grid) and C18_snap_counterexample (known finding); exact "
+                      "differential run of the real service (per-name Goptuna state and parameters via the verif accessors) + feasibility oracle in exact decimal arithmetic on every reply",
+        "level_note": "partial: feasibility of the samplers' output is judged per reply (oracle), not proved: the samplers are third-party floating-point code; doubles on a step grid are accepted "
+                      "within 1e-9 relative tolerance",
+        "assumptions": ["Katib creates at most one trial per assignment and never changes a trial's assignments", "bounds and steps are short decimals (shortest float representation)"],
+    },
     "C13": {
         "prop_files": ["Katib/Props/C13.lean"],
         "n": {"quick": 8000, "thorough": 300000},
